@@ -49,6 +49,7 @@ type vEntry struct {
 	content string
 	want    string // expected content after the run (class 4)
 	val     string // injected value (class 4)
+	extras  []vEntry // further directory entries created together with this one
 }
 
 // vMkEntry creates directory entry i of the given class under dir d/.
@@ -166,6 +167,33 @@ func vMkEntry(i, class int) vEntry {
 		vFSPut(e.name, src)
 		vParseResult(e.name, f, nil)
 		return e
+	case 18: // an annotated file among scratch files whose names extend its own (what editors, patch and half-finished runs leave behind)
+		val := vInjVal("nb" + base[2:])
+		src, f := vAnnotatedSrc(val, false)
+		e.class = 4
+		e.name, e.content = base+"nb.pb.go", src
+		e.want, _ = vAnnotatedSrc(val, true)
+		vFSPut(e.name, src)
+		vParseResult(e.name, f, nil)
+		for _, suffix := range []string{".tmp", ".bak", "~", ".orig", ".new", ".swp", ".lock"} {
+			x := vEntry{class: 1, name: e.name + suffix, content: "scratch " + suffix + "\n"}
+			vFSPut(x.name, x.content)
+			e.extras = append(e.extras, x)
+		}
+		x := vEntry{class: 1, name: "d/." + base[2:] + "nb.pb.go.swp", content: "swap\n"}
+		vFSPut(x.name, x.content)
+		e.extras = append(e.extras, x)
+		return e
+	case 19: // valid Go whose tag is an interpreted string literal ("json:\"id\"") with an @tag comment
+		src, f := vBuildSource("", []vStructSrc{{name: "A", fields: []vField{
+			{name: "Id", typ: "int64", hasTag: true, rawLit: "\"json:\\\"id\\\"\"", comment: "// @tag valid:\"required\""},
+			{name: "Note", typ: "string", hasTag: true, rawLit: "\"json:\\\"note\\\"\"", comment: "// plain"},
+		}}}, "")
+		e.class = 5
+		e.name, e.content = base+"quotedtag.go", src
+		vFSPut(e.name, src)
+		vParseResult(e.name, f, nil)
+		return e
 	case 3: // valid, no annotations
 		src, f := vBuildSource("", []vStructSrc{{name: "A", fields: []vField{{name: "X", typ: "string", hasTag: true, tag: "json:\"x\"", comment: "// plain"}, {name: "Y", typ: "int"}}}}, "")
 		e.name, e.content = base+"plain.go", src
@@ -231,6 +259,9 @@ func vWritten(name string) bool {
 }
 
 func vCheckEntry(tag string, e vEntry) {
+	for _, x := range e.extras {
+		vCheckEntry(tag+" (scratch file next to an annotated file)", x)
+	}
 	if e.class == 0 {
 		return
 	}
@@ -248,15 +279,22 @@ func vCheckEntry(tag string, e vEntry) {
 	}
 }
 
-const vNClasses = 18
+const vNClasses = 20
+
+// vCheckListing: the run neither leaves new entries behind nor removes any
+func vCheckListing(tag, before string) {
+	vAssert(vFSList("d") == before, tag+": the directory holds the same entries as before the run")
+}
 
 func H_C19_file() {
 	vSym = true
 	vFSMkdir("d")
 	e := vMkEntry(0, vndChoice("class", vNClasses))
+	before := vFSList("d")
 	ok := vNoPanic(func() { _ = handleFile(vFSPath(e.name)) })
 	vAssert(ok, "C19 handleFile: no crash on class "+string([]byte{byte('0' + e.class)}))
 	vCheckEntry("C19 handleFile", e)
+	vCheckListing("C19 handleFile", before)
 	vReach("end")
 }
 
@@ -272,27 +310,33 @@ func vDirScenario(n int) []vEntry {
 func H_C19_dir2() {
 	vSym = true
 	es := vDirScenario(2)
+	before := vFSList("d")
 	ok := vNoPanic(func() { _ = handleDir(vFSPath("d")) })
 	vAssert(ok, "C19 handleDir: no crash")
 	for _, e := range es {
 		vCheckEntry("C19 handleDir", e)
 	}
+	vCheckListing("C19 handleDir", before)
 	vReach("end")
 }
 
 func H_C19_dir3() {
 	es := vDirScenario(3)
+	before := vFSList("d")
 	ok := vNoPanic(func() { _ = handleDir(vFSPath("d") + "/") })
 	vAssert(ok, "C19 handleDir: no crash")
 	for _, e := range es {
 		vCheckEntry("C19 handleDir(3)", e)
 	}
+	vCheckListing("C19 handleDir(3)", before)
 	vReach("end")
 }
 
 func H_C19_glob() {
 	es := vDirScenario(2)
 	pat := []string{"d/*.go", "d/*", "d/*ann*"}[vndChoice("pattern", 3)]
+	before := vFSList("d")
+	defer func() { vCheckListing("C19 handlePatternFiles "+pat, before) }()
 	ok := vNoPanic(func() { _ = handlePatternFiles(vFSPath(pat)) })
 	vAssert(ok, "C19 handlePatternFiles: no crash")
 	for _, e := range es {
